@@ -21,13 +21,15 @@ ASSUMPTIONS = ['coordinates are decimals; pairs within 1e-9 relative of a thresh
                'the KD-tree candidate search returns every pair within the largest threshold (checked indirectly: no passing pair is missed)']
 TRUSTED = ['scipy KDTree distances (double) vs exact squared distances: agreement outside a 1e-9 band is what the check relies on']
 
-ELEMENTS = {'H': 1, 'C': 2, 'N': 3, 'O': 4, 'S': 5, 'Zn': 6, 'Se': 7, 'P': 8}
+ELEMENTS = {'H': 1, 'C': 2, 'N': 3, 'O': 4, 'S': 5, 'Zn': 6, 'Se': 7, 'P': 8, 'Cl': 9, 'F': 10, 'Br': 11, 'I': 12, 'Si': 13, 'As': 14, 'Te': 15}
 BLOCKS = {'AAA': (['N', 'CA', 'C', 'O', 'H'], [('N', 'CA'), ('CA', 'C'), ('C', 'O'), ('N', 'H')]),
           'BBB': (['C1', 'C2', 'O1', 'S1'], [('C1', 'C2'), ('C2', 'O1'), ('C2', 'S1')])}
-NAME_CODE = {n: i + 1 for i, n in enumerate(['N', 'CA', 'C', 'O', 'H', 'C1', 'C2', 'O1', 'S1', 'X1', 'X2', 'HX', 'SE', 'P1'])}
-EL_OF_NAME = {'N': 'N', 'CA': 'C', 'C': 'C', 'O': 'O', 'H': 'H', 'C1': 'C', 'C2': 'C', 'O1': 'O', 'S1': 'S', 'X1': 'C', 'X2': 'Zn', 'HX': 'H', 'SE': 'Se', 'P1': 'P'}
+NAME_CODE = {n: i + 1 for i, n in enumerate(['N', 'CA', 'C', 'O', 'H', 'C1', 'C2', 'O1', 'S1', 'X1', 'X2', 'HX', 'SE', 'P1', 'CL', 'F1', 'BR', 'I1', 'SI', 'AS', 'TE'])}
+EL_OF_NAME = {'N': 'N', 'CA': 'C', 'C': 'C', 'O': 'O', 'H': 'H', 'C1': 'C', 'C2': 'C', 'O1': 'O', 'S1': 'S', 'X1': 'C', 'X2': 'Zn', 'HX': 'H', 'SE': 'Se', 'P1': 'P',
+              'CL': 'Cl', 'F1': 'F', 'BR': 'Br', 'I1': 'I', 'SI': 'Si', 'AS': 'As', 'TE': 'Te'}
 RESNAME_CODE = {'AAA': 1, 'BBB': 2, 'UNK': 3}
-RADII = {'H': 0.120, 'C': 0.170, 'N': 0.155, 'O': 0.152, 'S': 0.180, 'Se': 0.190, 'P': 0.180}
+RADII = {'H': 0.120, 'C': 0.170, 'N': 0.155, 'O': 0.152, 'S': 0.180, 'Se': 0.190, 'P': 0.180, 'Cl': 0.175, 'F': 0.147, 'Br': 0.185,
+         'I': 0.198, 'Si': 0.210, 'As': 0.185, 'Te': 0.206}         # Bondi (1964), nm
 
 
 def gen_case(rng):
@@ -39,13 +41,13 @@ def gen_case(rng):
         for _ in range(rng.randint(1, 3)):
             resname = rng.choice(['AAA', 'AAA', 'BBB', 'UNK'])
             icode = rng.choice(['', '', '', 'A', 'B'])       # residues 5 and 5A are different residues
-            names = list(BLOCKS.get(resname, (['X1', 'X2', 'HX', 'C1', 'SE', 'P1'], []))[0])
+            names = list(BLOCKS.get(resname, (['X1', 'X2', 'HX', 'C1', 'SE', 'P1'] + rng.sample(['CL', 'F1', 'BR', 'I1', 'SI', 'AS', 'TE'], 2), []))[0])
             rng.shuffle(names)
             names = names[:rng.randint(1, len(names))]
             if rng.random() < 0.12:
                 names.append(names[0])          # duplicated atom name
             if rng.random() < 0.25:
-                names.append(rng.choice(['X1', 'HX', 'X2', 'SE', 'P1']))     # an atom the block does not know
+                names.append(rng.choice(['X1', 'HX', 'X2', 'SE', 'P1', 'CL', 'F1', 'BR', 'I1', 'SI', 'AS', 'TE']))     # an atom the block does not know
             for nme in names:
                 el = EL_OF_NAME[nme] if rng.random() < 0.95 else None
                 atoms.append({'name': nme if rng.random() < 0.97 else None, 'element': el, 'resname': resname, 'resid': resid,
